@@ -374,3 +374,30 @@ def implies_ge(op, a_is_lhs):
     if a_is_lhs:
         return op in ('Ge', 'Gt', 'Eq')
     return op in ('Le', 'Lt', 'Eq')
+
+
+def users_guard_drop_unconditional(ctx, r, rule):
+    """the Drop of the guard that undoes `users += 1` performs the undo on every path (no `if thread::panicking()`, no
+    flag): an unwinding or abandoned get() must give its users count back exactly like a failing one"""
+    prog = ctx.prog
+    ug = r.users_guard()
+    if not ug:
+        return
+    adt, how = ug[0], ug[3]
+    drops = [b for b in prog.bodies.values() if b.j.get('impl_trait') == 'std::ops::Drop' and adt_of(b.j.get('impl_self', '')) == adt]
+    if len(drops) != 1:
+        ctx.undecide(rule, 'Drop impl of the users guard %s not found' % adt); return
+    d = drops[0]
+    dan = prog.an(d)
+    if how[0] == 'closure':
+        acts = [blk.idx for blk in d.blocks if not blk.cleanup and (is_dyn_call(blk.term) or any(n.endswith('Fn::call') or n.endswith('FnMut::call_mut') or n.endswith('FnOnce::call_once') for n in blk.term.callee_names()))]
+    else:
+        acts = [blk.idx for blk in d.blocks if blk.term.kind == 'call' and not blk.cleanup and any(n.endswith('::fetch_sub') for n in blk.term.callee_names())]
+    # `armed` flag form of the guard: the arm taken only by a disarmed guard may skip the undo
+    from .ucommon import armed_flag_skips
+    skip = armed_flag_skips(prog, None, d, [d.blocks[x] for x in acts], guard_adt=adt)
+    esc = dan.reach([0], ('normal',), avoid=acts + skip)
+    ok = bool(acts) and not any(e in esc for e in dan.exits()['return'])
+    ctx.ob(rule, 'the users guard undoes the count on every path of its Drop', ok, ctx.where(d),
+           'the undo in Drop is conditional: a get() that ends on the skipped path (unwinding, abandoned) stays counted in users / status().waiting forever' if not ok else '',
+           construct='users-guard-drop-conditional')
